@@ -151,6 +151,62 @@ def windowed_then_op(rng):
     return p, cur
 
 
+def compound_order_cases(rng):
+    """Orders at compound (UNION / UNION ALL / DISTINCT) query levels: (1) an unsliced sort by plain columns re-sorted by
+    a total order that starts with a general expression — the engine may refuse (row-order loss) but must not return
+    other rows; (2) a window of a total order followed by a projection that drops the leading sort key.  Each ends in a
+    window, so the multiset of rows depends on the order.  -> (program, columns)"""
+    a, b = K(1), K(2)
+    vals = [(x, y) for x in (1, 2, 3, 4) for y in (5, 6, 7)]
+    rng.shuffle(vals)
+    l1 = ("leaf", 1, SQL, [a, b], [{a: x, b: y} for x, y in vals[:4]], (0, None))
+    l2 = ("leaf", 2, SQL, [a, b], [{a: x, b: y} for x, y in vals[4:7]], (0, None))
+    base = rng.choice([("chain", l1, l2), ("un", ("dedup",), mp.DEFAULT, ("chain", l1, l2)), ("un", ("dedup",), mp.DEFAULT, l1)])
+    if rng.random() < 0.5:
+        first = [(("ref", a), True), (("ref", b), rng.random() < 0.5)]
+        second = [(("neg", ("ref", b)), True), (("ref", a), rng.random() < 0.5)]
+        p = ("un", ("sort", second), mp.DEFAULT, ("un", ("sort", first), mp.DEFAULT, base))
+        p = ("un", ("slice", 0, rng.choice([1, 2, 3])), mp.DEFAULT, p)
+        return p, {a, b}
+    key, other = rng.choice([(a, b), (b, a)])
+    terms = [(("ref", key), rng.random() < 0.5), (("ref", other), True)]
+    p = ("un", ("sort", terms), mp.DEFAULT, base)
+    start = rng.choice([0, 1, 2])
+    p = ("un", ("slice", start, start + rng.choice([1, 2])), mp.DEFAULT, p)
+    p = ("un", ("proj", [other]), mp.DEFAULT, p)
+    return p, {other}
+
+
+def self_join(rng):
+    """A relation joined with itself, or with another relation built over the same table: the bare table, equal trees
+    built twice, one side filtered / windowed / deduplicated, a three-way join meeting the table again.  Rows repeat, so
+    a row occurring k times must come out k*k times."""
+    a, b, c = K(1), K(2), K(3)
+    rows = [{a: 1, b: 1}, {a: 1, b: 1}, {a: 2, b: 2}] + ([{a: 2, b: 2}] if rng.random() < 0.4 else [])
+    A = ("leaf", 1, SQL, [a, b], rows, (0, None))
+    B = ("leaf", 2, SQL, [a, c], [{a: 1, c: 7}, {a: 2, c: 8}], (0, None))
+    def dress(x):
+        r = rng.random()
+        if r < 0.3:
+            return x
+        if r < 0.5:
+            return ("un", ("sel", ("cmp", "ge", ("ref", a), ("lit", rng.choice([0, 2])))), mp.DEFAULT, x)
+        if r < 0.7:
+            return ("un", ("slice", 0, rng.choice([3, 4])), mp.DEFAULT, ("un", ("sort", [(("ref", a), True), (("ref", b), True)]), mp.DEFAULT, x))
+        if r < 0.85:
+            return ("un", ("dedup",), mp.DEFAULT, x)
+        return ("un", ("calc", N(5), ("add", ("ref", a), ("lit", 1))), mp.DEFAULT, x)
+    shape = rng.choice(["same", "same", "dressed", "dressed", "three_l", "three_r"])
+    if shape == "same":
+        x = dress(A)
+        return ("join", None, True, False, x, x)
+    if shape == "dressed":
+        return ("join", None, True, False, dress(A), dress(A))
+    if shape == "three_l":
+        return ("join", None, True, False, ("join", None, True, False, A, B), dress(A))
+    return ("join", None, True, False, dress(A), ("join", None, True, False, B, A))
+
+
 def mutual_hidden_join(rng):
     """A join of two projected relations each of which hides a column the other one shows (and, sometimes, only one of
     them does): every output column must come from the operand that shows it."""
